@@ -23,3 +23,4 @@ pub mod replay;
 pub mod mon_through;
 pub mod novelty;
 pub mod hidden;
+pub mod forks;
